@@ -166,6 +166,9 @@ Definition list_agrees (m : res (list (str * lblock))) (o : lobs) : bool :=
   | _, _ => false
   end.
 
+Definition diags_of_file (p : str) (ds : list (str * diag)) : list diag :=
+  map snd (filter (fun pd => str_eqb (fst pd) p) ds).
+
 (* constructors used by generated case files *)
 Definition mkspan (lo hi kind group : N) : cspan :=
   {| cs_lo := lo; cs_hi := hi; cs_kind := kind; cs_group := group |}.
